@@ -2,7 +2,8 @@
 From Coq Require Extraction ExtrOcamlBasic ExtrOcamlString.
 From Coq Require Import List Arith.
 Require Import TT.Model.Str TT.Model.TypeParse TT.Spec.TsLex TT.Spec.TsModule TT.Spec.TsObs.
-Require Import TT.Spec.C10Shape TT.Model.C10Zod TT.Spec.C10Check.
+Require Import TT.Spec.C10Shape TT.Model.C10Zod TT.Spec.C10Check TT.Model.C10ZodText.
+Import ListNotations.
 
 Definition c10_project (p : proj) (plain_text zod_text : str) : sx := c10_project_sx p plain_text zod_text.
 Definition c10_tcase (m : mapping) (t : tstruct) (opt with_enum with_unit : bool) (ct : tstruct) (fk pk ck lit : str) (extra : list cdef) : proj :=
@@ -14,5 +15,15 @@ Definition c10_allowed (t : tstruct) : sx := sx_tags (allowed_for_type t).
 Definition c10_compare (a b : str) : sx := c10_compare_sx a b.
 Definition c10_struct_of_rty (r : rty) : option tstruct := c10_structure r.
 
+(* text level of the schema constants: (constant name, text of its initialiser) for every struct and every
+   command with value parameters, as the two Zod templates print it (Model/C10ZodText.v) *)
+Definition c10_schema_texts (p : proj) : sx :=
+  SL (flat_map (fun d => match d with
+                         | DStruct s => [SL [SA (schema_name (s_name s)); SA (struct_schema_text (p_map p) s)]]
+                         | DEnum _ => [] end) (p_types p) ++
+      flat_map (fun c => match c_params c with
+                         | [] => []
+                         | _ => [SL [SA (schema_name (params_name c)); SA (param_schema_text (p_map p) c)]] end) (p_cmds p)).
+
 Extraction Language OCaml.
-Extraction "tt_c10.ml" c10_project c10_tcase c10_strings c10_string_oracle c10_in_dom c10_allowed c10_struct_of_rty c10_compare.
+Extraction "tt_c10.ml" c10_project c10_tcase c10_strings c10_string_oracle c10_in_dom c10_allowed c10_struct_of_rty c10_compare c10_schema_texts.
